@@ -54,7 +54,7 @@ ObsOf(par, ch, fr, fp, r) ==
   [k |-> CallKind(fr.pc), n |-> fr.n, v |-> fr.v, xs |-> fr.xs, bad |-> fr.bad,
    plan |-> fp, strict |-> Strict, asrt |-> Asrt,
    prepar |-> par, prech |-> ch, postpar |-> r.par, postch |-> r.ch,
-   exc |-> r.exc, src |-> r.src, log |-> r.log, marks |-> r.marks]
+   exc |-> r.exc, src |-> r.src, log |-> r.log, marks |-> r.marks, pcs |-> r.pcs]
 
 Init == /\ parent = [n \in Node |-> Nil]
         /\ children = [n \in Node |-> <<>>]
